@@ -25,7 +25,9 @@ What is restated here, and from where (`/repo/onnxscript/_internal/`):
   names `const_{value}_{dtype}` / `const_1d_{len(cache)}` (`tape_builder._constant_name`), registered as
   initializers of the **root** graph, never scope-qualified.  *Which* dtype a literal gets is C12's
   business: the trace carries the resolved dtype suffix and the numeric identity of the value
-  (kept in the wire format; unused since the key is the `repr`).
+  (kept in the wire format; unused since the key is the `repr`).  List literals here are homogeneous
+  `int` lists (`Lit.ints`); lists mixing Python types (commit fa769b8: cached with dtype `None`, element type left to
+  NumPy) are C12's subject and are not generated.
 * `doInline` — `_inliner.instantiate` (`prefix + node.name`, `prefix + output.name`, formals ↦ actuals)
   followed by `call_inline`'s renaming: non-final outputs `_qualify_value_name(name)`, final outputs the
   qualified `_outputs` names or `_qualify_value_name(current name)` — only for values produced by the
